@@ -269,8 +269,14 @@ def body(ctx):
 
     # ---------------- correspondence
     replies = lean.ask(reqs)
+    kind_differs = 0
     for req, impl, rep, case in zip(reqs, impls, replies, cases):
+        if impl.startswith("err") and rep.startswith("err"):
+            # the property fixes WHICH calls are rejected, not the wording / exception class / which guard speaks first
+            kind_differs += impl.split(":")[0] != rep
+            continue
         ctx.compare("C19", {"request": req, **case}, impl, rep)
+    ctx.extra["rejections_with_another_error_kind_than_the_model"] = kind_differs
     ctx.extra["rule"] = __doc__.split("Cases:")[1].strip()
     ctx.assumptions += ["numpy.array_split, itertools.product, re, json are exercised but not modelled beyond their results",
                         "option values are integers or identifier-like strings (find compares string forms)"]
